@@ -6,8 +6,8 @@ use crate::axecutor::Axecutor;
 use crate::helpers::errors::AxError;
 
 use crate::helpers::macros::calculate_r_rm;
-use crate::helpers::macros::calculate_rm_r;
 use crate::helpers::macros::fatal_error;
+use crate::helpers::operand::Operand;
 use crate::state::flags::*;
 
 impl Axecutor {
@@ -24,15 +24,23 @@ impl Axecutor {
         }
     }
 
+    /// Reads the 8-bit source operand (register or memory) of MOVZX r, r/m8
+    fn movzx_rm8_source(&self, i: Instruction) -> Result<u64, AxError> {
+        match self.instruction_operand(i, 1)? {
+            Operand::Memory(m) => self.mem_read_8(self.mem_addr(m)),
+            Operand::Register(r) => self.reg_read_8(r),
+            src => fatal_error!("Invalid source operand {:?} for MOVZX r, r/m8", src),
+        }
+    }
+
     /// MOVZX r16, r/m8
     ///
     /// o16 0F B6 /r
     fn instr_movzx_r16_rm8(&mut self, i: Instruction) -> Result<(), AxError> {
         debug_assert_eq!(i.code(), Movzx_r16_rm8);
 
-        calculate_rm_r![u16f; u8; self; i; |_, s| {
-            (s as u16, 0)
-        }; (set: FLAGS_UNAFFECTED; clear: 0)]
+        let src = self.movzx_rm8_source(i)?;
+        self.reg_write_16(i.op0_register().into(), src)
     }
 
     /// MOVZX r32, r/m8
@@ -41,9 +49,8 @@ impl Axecutor {
     fn instr_movzx_r32_rm8(&mut self, i: Instruction) -> Result<(), AxError> {
         debug_assert_eq!(i.code(), Movzx_r32_rm8);
 
-        calculate_rm_r![u32f; u8; self; i; |_, s| {
-            (s as u32, 0)
-        }; (set: FLAGS_UNAFFECTED; clear: 0)]
+        let src = self.movzx_rm8_source(i)?;
+        self.reg_write_32(i.op0_register().into(), src)
     }
 
     /// MOVZX r64, r/m8
@@ -52,9 +59,8 @@ impl Axecutor {
     fn instr_movzx_r64_rm8(&mut self, i: Instruction) -> Result<(), AxError> {
         debug_assert_eq!(i.code(), Movzx_r64_rm8);
 
-        calculate_rm_r![u64f; u8; self; i; |_, s| {
-            (s as u64, 0)
-        }; (set: FLAGS_UNAFFECTED; clear: 0)]
+        let src = self.movzx_rm8_source(i)?;
+        self.reg_write_64(i.op0_register().into(), src)
     }
 
     /// MOVZX r32, r/m16
